@@ -1,11 +1,11 @@
 (* GENERATED on every run by harness/props/c10_src.py from the syntax trees of LaneletNetwork.cleanup_*_references and remove_*.  Do not edit.
-   source: commonroad/scenario/lanelet.py sha1=c74dc10b353e57191b1e7df591ec9449b9d589d4 *)
+   source: commonroad/scenario/lanelet.py sha1=6b97a2da41d114a0ff7e7758263bd850fe817918 *)
 From Coq Require Import List.
 From CR Require Import Model.NetworkSrc.
 Import ListNotations.
 
 Definition src_cleanup_lanelets : cleanup_prog :=
-  {| cp_universe := ULanelets; cp_lanelet := [RList FPred; RList FSucc; RDir SLeft; RAdj SLeft; RAdj SRight; RDir SRight]; cp_incoming := [RInc FIncoming; RInc FStraight; RInc FRight; RInc FLeft]; cp_inter := [RCross] |}.
+  {| cp_universe := ULanelets; cp_lanelet := [RList FPred; RList FSucc; RAdj SLeft; RDir SLeft; RAdj SRight; RDir SRight]; cp_incoming := [RInc FIncoming; RInc FStraight; RInc FRight; RInc FLeft]; cp_inter := [RCross] |}.
 Definition src_cleanup_signs : cleanup_prog :=
   {| cp_universe := USigns; cp_lanelet := [RSet FSigns; RStop FSigns]; cp_incoming := []; cp_inter := [] |}.
 Definition src_cleanup_lights : cleanup_prog :=
